@@ -30,6 +30,17 @@ fn ocean() -> Coordinates {
     Coordinates::new(-45.0, -140.0).unwrap()
 }
 
+/// Every date of a calendar, hashed (a count alone does not tell one country's calendar from another's).
+fn cal_hash(cal: &compact_calendar::CompactCalendar) -> u64 {
+    let mut h: u64 = 0xcbf29ce484222325;
+    for d in cal.iter() {
+        for b in d.to_string().bytes() {
+            h = (h ^ u64::from(b)).wrapping_mul(0x100000001b3);
+        }
+    }
+    h
+}
+
 /// The menu of calls; each returns a digest of everything it observed.
 fn perform(call: &str, shared: &OpeningHours, ti: usize) -> String {
     match call {
@@ -37,7 +48,9 @@ fn perform(call: &str, shared: &OpeningHours, ti: usize) -> String {
             let h = Country::FR.holidays();
             let oh = OpeningHours::parse("Mo-Su 10:00-12:00 ; PH off").unwrap().with_context(Context::default().with_holidays(h.clone()));
             format!(
-                "{} {} {} {:?} {:?}",
+                "{:x} {:x} {} {} {} {:?} {:?}",
+                cal_hash(h.get_public()),
+                cal_hash(h.get_school()),
                 h.get_public().count(),
                 h.get_school().count(),
                 h.get_public().contains(NaiveDate::from_ymd_opt(2024, 7, 14).unwrap()),
@@ -48,7 +61,7 @@ fn perform(call: &str, shared: &OpeningHours, ti: usize) -> String {
         "holidays_us" => {
             let h = Country::from_str("US").unwrap().holidays();
             let first = h.get_public().first_after(NaiveDate::from_ymd_opt(2030, 1, 1).unwrap());
-            format!("{} {} {:?}", h.get_public().count(), h.get_school().count(), first)
+            format!("{} {} {:?} {:x} {:x}", h.get_public().count(), h.get_school().count(), first, cal_hash(h.get_public()), cal_hash(h.get_school()))
         }
         "country_from_coords" => format!(
             "{:?} {:?} {:?}",
